@@ -31,7 +31,7 @@ HSpec == HInit /\ [][HNext]_hvars
 LocalEnabled(u) ==
     \/ pc[u] \in {"get_post", "holding", "used", "drop_post"}
     \/ pc[u] = "idle" /\ alive /\ round[u] < MaxRounds
-LocalLabels == {"GetCall", "GetReturn", "Use", "DropCall", "DropReturn"}
+LocalLabels == {"GetCall", "GetReturn", "Use", "DropCall", "DropReturn", "Forget"}
 
 PNext ==
     \/ \E t \in Threads : \E l \in ThreadLabels : \E x \in Args(l) :
